@@ -207,11 +207,13 @@ pub fn shapes(gi: &GInst, tier: Tier) -> Vec<Shape> {
                 }
             }
         } else if is_id_kind(kind) {
-            for v in [0u32, 0xFFFF_FFFF] {
+            // 0, 2^32-1, and two numbers that mean something else elsewhere in a binary: the magic number and a
+            // plausible first word of an instruction (OpCapability with word count 2)
+            for v in [0u32, 0xFFFF_FFFF, 0x0723_0203, 0x0002_0011] {
                 variants.push((format!("id={:#x}", v), vec![id_arg(kind, v)]));
             }
         } else if matches!(kind, "LiteralInteger" | "LiteralFloat" | "LiteralExtInstInteger") {
-            for v in [0u32, 1, 0x8000_0000, 0xFFFF_FFFF] {
+            for v in [0u32, 1, 0x8000_0000, 0xFFFF_FFFF, 0x0723_0203, 0x0002_0011] {
                 variants.push((format!("lit={:#x}", v), vec![if kind == "LiteralExtInstInteger" { Arg::ExtInstNo(v) } else { Arg::Lit32(v) }]));
             }
         } else if kind == "LiteralString" {
@@ -219,7 +221,7 @@ pub fn shapes(gi: &GInst, tier: Tier) -> Vec<Shape> {
                 variants.push((format!("str={:?}", s), vec![Arg::Str(s)]));
             }
         } else if kind == "LiteralContextDependentNumber" {
-            for v in [0u32, 1, 0x8000_0000, 0xFFFF_FFFF] {
+            for v in [0u32, 1, 0x8000_0000, 0xFFFF_FFFF, 0x0723_0203, 0x0002_0011] {
                 variants.push((format!("ctx32={:#x}", v), vec![Arg::Lit32(v)]));
             }
         } else if kind.starts_with("Pair") {
